@@ -5,11 +5,22 @@ from __future__ import annotations
 import asyncio
 import itertools
 
-from vlib.peers_tunnel import ACK_BEHAVIOURS, Gateway, IterationInjector, make_cemi, tag_of
+from vlib.peers_tunnel import (
+    ACK_BEHAVIOURS,
+    SECURE_DEVICE_PASSWORD,
+    SECURE_USER_ID,
+    SECURE_USER_PASSWORD,
+    Gateway,
+    IterationInjector,
+    SecureGateway,
+    make_cemi,
+    secure_harness,
+    tag_of,
+)
 from vlib.vloop import Deadlock, LoopBudget, new_loop
 from xknx import XKNX
 from xknx.exceptions import CommunicationError
-from xknx.io.tunnel import TCPTunnel, UDPTunnel
+from xknx.io.tunnel import SecureTunnel, TCPTunnel, UDPTunnel
 
 LEVEL = "fault_enumeration"
 TECHNIQUE = ("runtime monitor: wire-history oracle (per connection epoch counters 0,1,2..., <= 2 transmissions per frame and "
@@ -21,8 +32,8 @@ LEVEL_TEXT = (
     "staggered, with and without auto-reconnect; every string up to a shorter bound is also run with a server DisconnectRequest "
     "injected at every event-loop iteration of its own baseline run (and in the middle of every sleep), combined with handshake "
     "faults of the reconnect (ConnectResponse late by 0.01/0.5/0.7/0.9/1.2/2.5 s, first one lost, DisconnectResponse lost) and "
-    "with route_back / a route-back data endpoint. Plus counter wrap-around runs (300 sends) over UDP and TCP "
-    "with random faults. Bounded exhaustive fault enumeration; the bound is the behaviour-string length."
+    "with route_back / a route-back data endpoint. Plus counter wrap-around runs (300 sends) over UDP, TCP and the secure "
+    "tunnel with random faults, and server disconnect / session close / TCP reset at every loop iteration of a TCP and a secure session. Bounded exhaustive fault enumeration; the bound is the behaviour-string length."
 )
 LEVEL_NOTE = (
     "Trusted: virtual loop, scripted gateway, asyncio. Judged: (1) the k-th new cEMI frame of a connection carries counter k mod "
@@ -32,7 +43,8 @@ LEVEL_NOTE = (
     "not returned; (4) send_cemi returned normally => an ACK with the channel and counter of one of that send's transmissions and "
     "E_NO_ERROR was delivered after that transmission on the same connection. Not judged: which exception a failed send raises, "
     "what happens to error-status ACKs of other frames, frames on a channel the server already closed (recorded). TCP: counters only "
-    "(no acknowledgements exist). Secure tunnel not run here (its counters are those of TCPTunnel.send_cemi, inherited unchanged)."
+    "(no acknowledgements exist). SecureTunnel: counters only, against a scripted secure server (reference crypto, PBKDF2 memoised); its connections "
+    "end by wrapped DisconnectRequest, session status close, or TCP reset."
 )
 SHARDS = {"quick": 1, "thorough": 16}
 TIMEOUT = {"quick": 300, "thorough": 3000}
@@ -54,8 +66,13 @@ def run_case(script, mode="seq", n_sends=3, inject_at=None, transport="udp", fau
     """
     loop = new_loop()
     inj = IterationInjector(loop)
-    gw = Gateway(loop)
+    if transport == "secure":
+        gw = SecureGateway(loop)
+        loop.on_connection = gw.on_connection
+    else:
+        gw = Gateway(loop)
     gw.data_endpoint_route_back = gw_route_back
+    box = {"n": 0}
     if connect_fault is not None:
         if connect_fault.startswith("d") and connect_fault[1].isdigit():
             delay = float(connect_fault[1:])
@@ -76,7 +93,13 @@ def run_case(script, mode="seq", n_sends=3, inject_at=None, transport="udp", fau
             gw.note("inject_skipped")
             return
         gw.note("inject_server_disconnect")
-        gw.send_disconnect_request()
+        box["n"] += 1
+        if transport == "secure" and box["n"] % 3 == 2:
+            gw.send_session_status(5)  # the server closes the secure session instead
+        elif transport != "udp" and box["n"] % 3 == 0:
+            gw.lose_transport()  # TCP connection reset
+        else:
+            gw.send_disconnect_request()
 
     if inject_at is not None:
         inj.at(inject_at, inject, inject_frac)
@@ -103,6 +126,11 @@ def run_case(script, mode="seq", n_sends=3, inject_at=None, transport="udp", fau
             tunnel = UDPTunnel(xknx, cemi_received_callback=lambda raw: None, gateway_ip="10.0.0.2", gateway_port=3671,
                                local_ip="10.0.0.1", route_back=route_back, auto_reconnect=auto,
                                auto_reconnect_wait=auto_reconnect_wait)
+        elif transport == "secure":
+            tunnel = SecureTunnel(xknx, cemi_received_callback=lambda raw: None, gateway_ip="10.0.0.2", gateway_port=3671,
+                                  user_id=SECURE_USER_ID, user_password=SECURE_USER_PASSWORD,
+                                  device_authentication_password=SECURE_DEVICE_PASSWORD,
+                                  auto_reconnect=auto, auto_reconnect_wait=auto_reconnect_wait)
         else:
             tunnel = TCPTunnel(xknx, cemi_received_callback=lambda raw: None, gateway_ip="10.0.0.2", gateway_port=3671,
                                auto_reconnect=auto, auto_reconnect_wait=auto_reconnect_wait)
@@ -114,6 +142,8 @@ def run_case(script, mode="seq", n_sends=3, inject_at=None, transport="udp", fau
         if mode in ("seq", "seq-noauto"):
             for i in range(n_sends):
                 await send(tunnel, i + 1)
+                if transport != "udp":  # no ACK to wait for: pace the sends so that server events fall between them
+                    await asyncio.sleep(0.01)
         elif mode == "conc":
             await asyncio.gather(*(send(tunnel, i + 1) for i in range(n_sends)))
         else:  # staggered: the later sends queue behind a retrying earlier one
@@ -285,6 +315,12 @@ def judge_case(ctx, script, mode, inject_at=None, transport="udp", n_sends=3, sa
     problems, stats = judge_history(log, udp=transport == "udp")
     for k, v in stats.items():
         ctx.count(k, v)
+    if transport != "udp":
+        later = sum(1 for a, b in zip(shape(log).split("C")[2:], shape(log).split("C")[2:]) if "Q" in a)
+        ctx.count(f"frames_on_later_connection_{transport}", later)
+    if transport == "secure":
+        ctx.count("epochs_secure", stats["epochs"])
+        ctx.count("tx_requests_secure", stats["tx_requests"])
     if inject_at is not None and any(kind == "inject_server_disconnect" for _t, kind, _i in log):
         ctx.count("server_disconnects_injected")
     ctx.count(f"runs_{mode}_{transport}")
@@ -324,6 +360,11 @@ def all_scripts(max_len):
 
 
 def run(ctx):
+    with secure_harness(ctx.seed):
+        _run(ctx)
+
+
+def _run(ctx):
     n_all = ctx.scale(3, 5)
     n_inj = ctx.scale(1, 2)
     ctx.rule = (f"all ACK-behaviour strings over {sorted(LETTERS.values())} of length <= {n_all} (later transmissions: ok) x modes "
@@ -331,7 +372,8 @@ def run(ctx):
                 "the baseline; 300-send wrap runs (UDP with sparse faults, TCP with server disconnects); distinct = (transport, mode, "
                 "event-kind string of the wire history)")
     ctx.require("tx_requests", "acks_delivered", "repetitions", "epochs", "send_ok", "send_fail", "foreign_acks_delivered",
-                "server_disconnects_injected", "runs_conc_udp", "runs_seq_tcp", "runs_route_back",
+                "server_disconnects_injected", "runs_conc_udp", "runs_seq_tcp", "runs_seq_secure", "runs_conc_secure",
+                "epochs_secure", "tx_requests_secure", "frames_on_later_connection_secure", "frames_on_later_connection_tcp", "runs_route_back",
                 "reconnects_completed_under_connect_fault", "connect_response_right_after_failed_send",
                 *(f"runs_connect_fault_{cf}" for cf in CONNECT_FAULTS))
     assert set(LETTERS.values()) == set(ACK_BEHAVIOURS)
@@ -378,10 +420,27 @@ def run(ctx):
         discs = {rng.randrange(1, 300) for _ in range(rng.randint(0, 3))}
         judge_case(ctx, "", "seq", n_sends=300, transport="tcp", server_disc_after_tx=discs)
         judge_case(ctx, "", "seq", n_sends=300, transport="udp", server_disc_after_tx=discs)
+        discs = {rng.randrange(1, 300) for _ in range(rng.randint(3, 6))}  # disconnect / session close / TCP reset in turn
+        judge_case(ctx, "", "seq", n_sends=300, transport="secure", server_disc_after_tx=discs)
+        judge_case(ctx, "", "conc", n_sends=40, transport="secure", server_disc_after_tx={rng.randrange(1, 40), rng.randrange(1, 40)})
+    # secure / TCP tunnel: server disconnect, session close or TCP reset at every loop iteration of a 3-send session
+    for transport in ("secure", "tcp"):
+        for mode in ("seq", "conc"):
+            i += 1
+            if not ctx.mine(i):
+                continue
+            _log, iters, _err, _sl = run_case("", mode, transport=transport)
+            for k in range(iters):
+                judge_case(ctx, "", mode, inject_at=k, transport=transport)
     ctx.exhaustive = True
 
 
 def replay(ctx, witness):
+    with secure_harness(ctx.seed):
+        _replay(ctx, witness)
+
+
+def _replay(ctx, witness):
     ctx.rule = "replay of one recorded scenario"
     kw = dict(witness.get("kw") or {})
     if "server_disc_after_tx" in kw:
